@@ -62,6 +62,9 @@ Definition registered : list (N * string * bool * string) := [
   (31, "FlySrc", false, "struct{string,string,string}")
 ].
 
+Definition f_cav_min_user_defined : N := 281474976710656.
+Definition f_cav_max_user_defined : N := 18446744073709551614.
+Definition f_cav_unregistered : N := 18446744073709551615.
 Definition f_scheme_flyv1 : string := "FlyV1".
 Definition f_init_path : string := "/.well-known/macfly/3p".
 Definition f_poll_path_prefix : string := "/.well-known/macfly/3p/poll/".
